@@ -713,6 +713,9 @@ def c09(run: Run):
 def c10(run: Run):
     rng = run.rng
     mats = core.gen_material("lzma", run.seed + 10, sizes(run.tier, 60, 800)) + core.gen_material("lzmawrap", run.seed + 10, sizes(run.tier, 2, 12))
+    # always: outputs that lap dictionaries whose size is not a multiple of 16 (the window is exactly the dictionary)
+    mats += core.script([dict(kind="lzma", lc=3, lp=0, pb=2, dict=d_, prog="X200.%d.200,M%d.273*%d,X7.%d.200%s" % (rng.below(99), rng.pick([9, 150]), (3 * d_) // 273, rng.below(99), e_))
+                         for d_, e_ in ((4097, ""), (5000, ",E"), (4100, ""))])
     for m in mats:
         d, out = m["dict"], m["out"]
         need = min(d, len(out))
